@@ -570,8 +570,8 @@ func runC16Retry(t *testing.T, c RetryCase) (v *h.Violation, info h.Info) {
 			v = h.V("unknown-name-is-fetched", "the first lookup failed (%s); %d ms later the service is healthy and has the secret, but a new lookup (via %s) yields %q, %v (requests sent for it: %d)", c.FailKind, c.GapMs, c.Entry2, val, err, svc.LogLen()-l1)
 			return
 		}
-		if n := svc.LogLen() - l1; n != 1 {
-			v = h.V("unknown-name-is-fetched", "the lookup after a failed one sent %d requests, want 1", n)
+		if n := svc.LogLen() - l1; n < 1 {
+			v = h.V("unknown-name-is-fetched", "the lookup after a failed one was answered without any request to the service (%d sent)", n)
 			return
 		}
 		if hd := st.Secret("x"); hd == nil || string(hd.Get()) != xVal {
@@ -586,7 +586,7 @@ func runC16Retry(t *testing.T, c RetryCase) (v *h.Violation, info h.Info) {
 
 var c16retry = &h.Campaign[RetryCase]{
 	Prop: "C16", Sub: "lookup-after-failure",
-	Rule: "rapid + testing/synctest: the first lookup of an unknown name (LookupSecret / NewUpdater / Fields.Apply) fails - the service errs, lacks the secret, refuses, the request times out, or (through the real setec.Client) the 200 reply is cut short at a generated byte - and must be reported, cause exactly one request and install nothing; 0 ms - 10 min later (virtual) the service is healthy and has the secret: a new lookup must be served by exactly one fresh request and yield a working handle; non-trivial = every completed case; distinct by scenario",
+	Rule: "rapid + testing/synctest: the first lookup of an unknown name (LookupSecret / NewUpdater / Fields.Apply) fails - the service errs, lacks the secret, refuses, the request times out, or (through the real setec.Client) the 200 reply is cut short at a generated byte - and must be reported, cause exactly one request and install nothing; 0 ms - 10 min later (virtual) the service is healthy and has the secret: a new lookup must be served by a fresh request and yield a working handle; non-trivial = every completed case; distinct by scenario",
 	Quick: 600, Thorough: 60000,
 	Gen: func(rt *rapid.T) RetryCase {
 		return RetryCase{
